@@ -45,7 +45,8 @@ def check(run: Run) -> None:
     with run.obligation("C15.a", "K1", "node evaluate_impl: capture iff has_error_output and schema and captures_errors; handler = one "
                         "write_node_error(.., NOW, error); scheduler re-arm and `return true` follow the handled path too"):
         fa = R.fn(run, NODE, "evaluate_impl")
-        R.k1(run, "C15.a", fa, c02.node_eval_roles(), c02.node_eval_spec, role_calls=c02.NODE_EVAL_CALLS, may_throw_calls=("EVAL",),
+        spec_p, calls_p, feas_p = c02.node_eval_projection({"error", "rearm"})
+        R.k1(run, "C15.a", fa, c02.node_eval_roles(), spec_p, role_calls=calls_p, feasible=feas_p, may_throw_calls=("EVAL",),
              what="node evaluate gate with error capture")
         fl = R.flow(run, fa)
         ev = fl.nodes_of(R.call_is(callee=r"callbacks\(context\)\.evaluate"))
